@@ -169,7 +169,18 @@ func verifBuildWorld2(sim *verifsim.Sim) *verifWorld {
 	note("q1", map[string]any{"inReplyTo": u("/notes/q2")})
 	note("q2", map[string]any{"inReplyTo": u("/notes/q3")})
 	note("q3", map[string]any{"inReplyTo": u("/notes/q4")})
-	note("q4", nil)
+	q4 := "<p>the root, with twelve links:"
+	for k := 1; k <= 12; k++ {
+		target := u("/missing")
+		if k == 8 {
+			target = u("/notes/q1")
+		}
+		if k == 10 {
+			target = u("/notes/q3")
+		}
+		q4 += fmt.Sprintf(` <a href="%s">l%d</a>`, target, k)
+	}
+	note("q4", map[string]any{"content": q4 + "</p>"})
 	note("m3", map[string]any{"inReplyTo": u("/notes/gone")})
 	note("m4", map[string]any{"replies": map[string]any{"id": u("/notes/m4/replies"), "type": "Collection", "items": []any{u("/notes/m5")}}})
 	note("m5", map[string]any{"inReplyTo": u("/notes/m4")})
@@ -177,6 +188,8 @@ func verifBuildWorld2(sim *verifsim.Sim) *verifWorld {
 	w.name[u("/media/carol.png")] = "pic_carol"
 	w.name[u("/media/carol-banner.jpg")] = "banner_carol"
 	w.name[u("/notes/q4")] = "q4"
+	w.name[u("/notes/q1")] = "q1"
+	w.name[u("/notes/q3")] = "q3"
 	w.name[u("/missing")] = "fo"
 	w.put("/empty", map[string]any{"type": "OrderedCollection", "totalItems": 0, "orderedItems": []any{}})
 	/* a page of Markdown notes (built side by side when the page is harvested), outside the model's world */
@@ -225,6 +238,8 @@ func (w *verifWorld) expand(tok string) []byte {
 		return []byte("open " + u(w.startA+"/outbox"))
 	case "open_bad":
 		return []byte("open " + u("/missing"))
+	case "open_empty":
+		return []byte("open ")
 	case "feed_f":
 		return []byte("feed f")
 	case "feed_u":
@@ -683,7 +698,7 @@ func TestVerifKeys(t *testing.T) {
 		start := strings.TrimPrefix(strings.TrimPrefix(strings.TrimPrefix(toks[0], "h"), "g"), "start_")
 		target := map[string]string{"a": w.startA, "p": w.startP}[start]
 		lens := verifkit.M{}
-		for _, macro := range []string{"open_a", "open_p", "open_c", "open_bad", "feed_f", "feed_u", "bad_cmd"} {
+		for _, macro := range []string{"open_a", "open_p", "open_c", "open_bad", "open_empty", "feed_f", "feed_u", "bad_cmd"} {
 			lens[macro] = len(w.expand(macro))
 		}
 		out.Emit(verifkit.M{"ev": "reset", "sid": sid, "start": start, "keys": toks[1:], "lens": lens})
